@@ -125,7 +125,7 @@ func (m *c05Monitor) snapshot(r *Run, ctx sdk.Context) *c05Snapshot {
 			return false
 		}
 		a := &c05AVS{addr: info.AvsAddress, epochID: info.EpochIdentifier, start: info.StartingEpoch, assets: sortedStrings(info.AssetIDs),
-			minSelf: sdkmath.LegacyNewDec(int64(info.MinSelfDelegation)), optedIn: map[string]bool{}}
+			minSelf: sdkmath.LegacyNewDecFromInt(sdkmath.NewIntFromUint64(info.MinSelfDelegation)), optedIn: map[string]bool{}}
 		for _, o := range r.W.Ops {
 			if oi, err := app.OperatorKeeper.GetOptedInfo(ctx, o.Addr.String(), info.AvsAddress); err == nil && oi != nil && oi.OptedOutHeight == operatortypes.DefaultOptedOutHeight {
 				a.optedIn[o.Addr.String()] = true
